@@ -260,3 +260,16 @@ def build_file(ids, rng, style=None, encs=None, defect=None, defect_at=None, unk
     for _ in range(style.trailing_blank):
         out += rng.choice([b'\n', b'\r\n', b'  \n'])
     return out, {'sections': info, 'defect_applied': applied, 'defect': defect}
+
+
+def probe_files():
+    """Small edge-case files that are read FIRST in a run, so that anything a reader carries over from one
+    parse to the next (caches keyed too coarsely, module-level tables) meets its worst first input:
+    preambles far shorter than their declared indent, empty-ish content, minimal sections."""
+    out = []
+    for n in (2, 3, 4, 7, 9, 12, 40):
+        content = b'\n' if n <= 3 else b'a\n'
+        out.append(b'#diffx: encoding=utf-8, version=1.0\n#.preamble: indent=%d, length=%d\n' % (n, len(content)) + content
+                   + b'#.change:\n#..preamble: indent=%d, length=%d, line_endings=unix\n' % (n, len(content)) + content)
+    out.append(b'#diffx: encoding=utf-8, version=1.0\n#.meta: format=json, length=3\n{}\n#.change:\n#..file:\n#...meta: length=3\n{}\n')
+    return out
